@@ -26,7 +26,7 @@ from .. import common as c
 from .. import indep_util as iu
 
 PROP = "C13"
-SIGS = {"dfsTreeFrag": "frag-split-by-dfs-tree", "fragIdOrder": "fragment-id-vs-merge-order", "itpGlobal": "itp-finalize-rewrites-earlier-definitions"}
+SIGS = {"dfsTreeFrag": "F31", "fragIdOrder": "F32", "itpGlobal": "F33"}
 DEVS = [("Ind_dev_sliceany.cfg", "fragment nodes sliced in set-iteration order (F15, repaired)"),
         ("Ind_dev_key0.cfg", "terminal modification looked up by node key 0 / resid-1 (F9, repaired)"),
         ("Ind_dev_addany.cfg", "blocks added in node order instead of residue-id order"),
@@ -79,7 +79,7 @@ def _replay_chunk(arg):
         F = ffs[case["ff"] - 1]
         var = vrec["var"]
         try:
-            obs = iu.run_direct(case, F, var, wd, tag="v%d_%d" % (case["id"], vidx))
+            obs = iu.run_direct(case, F, var, wd, tag="v%d_%d" % (case["id"], vidx), reuse_files=True)
         except Exception as exc:  # rendering failed: harness problem
             return {"machinery": "%s: %s (case %s variant %s)" % (type(exc).__name__, exc, case["id"], vidx)}
         stats["direct"] += 1
@@ -177,15 +177,23 @@ def _run_history(arg):
 
 
 def prepare_abstract_input(wd, k, case, F):
-    """render input k (catalogue case) once: force-field files in base presentation + residue graph json"""
+    """render input k (catalogue case) once: residue graph json + the force-field files in base presentation.  Inputs that use the
+    same force field use the SAME files (one directory per force field), as two calls on one library would"""
+    fd = Path(wd) / ("ff%d" % case["ff"])
+    base = [{"syn": f["syn"], "src": i + 1, "defs": f["defs"]} for i, f in enumerate(F["files"])]
+    if not fd.exists():
+        fd.mkdir(parents=True)
+        iu.write_files(fd, F, base, "ff%d" % case["ff"])
+    paths = sorted(fd.iterdir(), key=lambda p: p.name)
     d = Path(wd) / ("in%d" % k)
     d.mkdir(parents=True, exist_ok=True)
-    base = [{"syn": f["syn"], "src": i + 1, "defs": f["defs"]} for i, f in enumerate(F["files"])]
-    paths = iu.write_files(d, F, base, "in%d" % k)
     var = {"keys": [{"s": False, "v": p} for p in range(case["n"])], "nodeorder": list(range(1, case["n"] + 1)), "eseq": case["E"]}
     jp = d / "seq.json"
     jp.write_text(iu.graph_json(case, var))
-    return {"inpath": [str(p) for p in paths], "seq_file": str(jp), "mods": iu.mods_arg(case), "name": "t", "label": "catalogue case %d (%s)" % (case["id"], " ".join(case["rn"]))}
+    r = {"inpath": [str(p) for p in paths], "seq_file": str(jp), "name": "t", "label": "catalogue case %d (%s)" % (case["id"], " ".join(case["rn"]))}
+    if case["mods"]:
+        r["mods"] = iu.mods_arg(case)
+    return r
 
 
 def history_specs(wd, inputs, hists, tag):
@@ -711,13 +719,21 @@ def run(tier, prop=PROP):
                          what="%s relabelled (seed %d, %s keys): %s" % (r["id"], v["seed"], v["keys"], "; ".join(iu.diff(v["proj"], r["base"], "relabelled", "base labelling"))[:300]))
 
     ck.stage("binding demonstration")
-    demo = json.loads(json.dumps({"ffs": doc["ffs"][:3], "recs": doc["recs"][:3], "opaque": doc["opaque"][:2], "fresh": doc["fresh"], "traces": doc["traces"][:2]}))
-    v = demo["recs"][0]["vars"][1]["proj"]
-    if v["err"] or not v["ints"]:
-        raise c.MachineryError("binding demonstration: the first random record has no interaction to corrupt")
-    v["ints"][0][2] = "9.99"                                  # one parameter of one recorded interaction
-    demo["opaque"][0]["vars"][0] = "0" * 16                  # one digest
-    demo["traces"][0][1]["out"] = "f" * 16                   # the result of the second run of one history
+    # built from records / traces that were accepted above, so that exactly the corrupted ones must be rejected
+    badkeys = {(b["src"], b["rec"]) for b in badrecs}
+    good = [r for r in doc["recs"] if ("rec", r["case"]["id"]) not in badkeys and not r["vars"][1]["proj"]["err"] and r["vars"][1]["proj"]["ints"]]
+    goodop = [o for k, o in enumerate(doc["opaque"]) if ("opaque", k + 1) not in badkeys]
+    goodtr = [t for k, t in enumerate(doc["traces"]) if (k + 1) not in rejected and len(t) >= 2]
+    if len(good) < 2 or not goodop or not goodtr:
+        ck.require(False, "binding demonstration: not enough accepted records to corrupt (%d random cases, %d repository inputs, %d histories)" % (len(good), len(goodop), len(goodtr)))
+        return ck.finish()
+    good = good[:3]
+    demo = json.loads(json.dumps({"ffs": [doc["ffs"][r["case"]["ff"] - 1] for r in good], "recs": good, "opaque": goodop[:2], "fresh": doc["fresh"], "traces": goodtr[:2]}))
+    for k, r in enumerate(demo["recs"]):
+        r["case"]["ff"] = k + 1
+    demo["recs"][0]["vars"][1]["proj"]["ints"][0][2] = "9.99"    # one parameter of one recorded interaction
+    demo["opaque"][0]["vars"][0] = "0" * 16                      # one digest
+    demo["traces"][0][1]["out"] = "f" * 16                       # the result of the second run of one history
     demo["recs"][1]["vars"][1]["var"]["nodeorder"][0] = demo["recs"][1]["vars"][1]["var"]["nodeorder"][1]   # not a permutation any more
     rej2, bad2, _ = validate(ck, demo, "demo", expect_reject=True)
     got = {(b["src"], b["rec"], b["var"], b["what"][:12]) for b in bad2}
